@@ -110,8 +110,8 @@ func runC03(c *Ctx) {
 	}
 
 	c03CallbackOwners(c)
-	c.Rule("C03-D9", "a deferred ack is not suppressed (F38): emitBuffered records an ack id as answered — and answers with an empty ACK itself — only on the path where the handler has no ack function (the result of "+
-		"callEvent is false); with an ack function the reply is the handler's to send, also after it has returned", 1)
+	c.Rule("C03-D9", "a buffered event is acknowledged only through a handler's ack function (F38, F42): emitBuffered itself neither records an ack id as answered nor sends an ACK packet — an ACK made up on behalf of "+
+		"a handler without an ack function uses up the id, so the real reply (sent after the handler returned, or by another handler of the same event) is dropped; the sendAck closure is the one sender", 2)
 	deferredAckNotSuppressed(c, "C03-D9")
 	c.Rule("C03-D10", "the retry queue's replacement ack acts only for its own packet (F39): every pop of queuedPackets[1:] in the replacement closure of addToQueue is behind the test queuedPackets[0] == packet made in "+
 		"the same critical section of pq.mu, and the application's callback is invoked only behind that test", 2)
